@@ -1,4 +1,5 @@
 CONSTANTS
+  HeadVariants = {3}
   PixVariants = {5}
   WithPreamble = {FALSE}
 SPECIFICATION MCSpec
